@@ -298,7 +298,9 @@ func runC16Handshake(c *Ctx) {
 		var tail []byte
 		var err error
 		panicked := ""
-		func() {
+		doneCh := make(chan struct{})
+		go func() {
+			defer close(doneCh)
 			defer func() {
 				if p := recover(); p != nil {
 					panicked = fmt.Sprint(p)
@@ -306,6 +308,13 @@ func runC16Handshake(c *Ctx) {
 			}()
 			v, tail, err = handshake.VerifReadMessage(sc, 0, append([]byte(nil), rc.chunk...))
 		}()
+		select {
+		case <-doneCh:
+		case <-time.After(10 * time.Second):
+			// the scripted connection never blocks: a reader that has not returned is spinning or waiting for nothing
+			r.Violation("C16/handshake-reader-hang", fmt.Sprintf("readMessage did not return within 10 s on a scripted connection (%d reads so far, script of %d segments): the accept loop of a node would be stuck on this peer", sc.reads, len(rc.segs)), rc.cs)
+			return
+		}
 		if panicked != "" {
 			r.Violation("C16/handshake-reader-panic", "readMessage panicked: "+panicked, rc.cs)
 			rc.impl = "panic"
